@@ -191,7 +191,7 @@ func (sm *SessionManager) GetSession(r *http.Request) (*SessionData, error) {
 	sessionData.request = r
 
 	var err error
-	sessionData.mainSession, err = sm.store.Get(r, mainCookieName)
+	sessionData.mainSession, err = sm.getOrNewSession(r, mainCookieName)
 	if err != nil {
 		sm.sessionPool.Put(sessionData)
 		return nil, fmt.Errorf("failed to get main session: %w", err)
@@ -205,13 +205,13 @@ func (sm *SessionManager) GetSession(r *http.Request) (*SessionData, error) {
 		}
 	}
 
-	sessionData.accessSession, err = sm.store.Get(r, accessTokenCookie)
+	sessionData.accessSession, err = sm.getOrNewSession(r, accessTokenCookie)
 	if err != nil {
 		sm.sessionPool.Put(sessionData)
 		return nil, fmt.Errorf("failed to get access token session: %w", err)
 	}
 
-	sessionData.refreshSession, err = sm.store.Get(r, refreshTokenCookie)
+	sessionData.refreshSession, err = sm.getOrNewSession(r, refreshTokenCookie)
 	if err != nil {
 		sm.sessionPool.Put(sessionData)
 		return nil, fmt.Errorf("failed to get refresh token session: %w", err)
@@ -230,6 +230,19 @@ func (sm *SessionManager) GetSession(r *http.Request) (*SessionData, error) {
 	sm.getTokenChunkSessions(r, refreshTokenCookie, sessionData.refreshTokenChunks)
 
 	return sessionData, nil
+}
+
+// getOrNewSession returns the named session. A cookie that cannot be decoded (modified,
+// truncated, produced under another key, or too old) is treated as absent: the store
+// returns a new, empty session together with the decoding error, and that session is used,
+// so the next Save replaces the unusable cookie.
+func (sm *SessionManager) getOrNewSession(r *http.Request, name string) (*sessions.Session, error) {
+	session, err := sm.store.Get(r, name)
+	if err != nil && session != nil {
+		sm.logger.Debugf("Ignoring unusable cookie %s: %v", name, err)
+		return session, nil
+	}
+	return session, err
 }
 
 // getTokenChunkSessions retrieves all cookie chunks associated with a large token (access or refresh).
